@@ -5,7 +5,11 @@
 // (MarshalText / String for the 1.x types and Duration, the raw decimal integer BurntSushi/toml
 // emits for the 2.x types, and a full toml Encode -> Decode of a one-field struct) and (b) every
 // string <pre><sign><digits><mid><suffix><post> over the value set x every case variant of every
-// suffix, against an exact math/big oracle written from the type documentation.
+// suffix, against an exact math/big oracle written from the type documentation, and (c) the
+// numeric-prefix alphabet: every string <pre><sign><number spelling><gap><suffix><post> where the number
+// spelling ranges over EVERY string up to a length bound over the byte alphabet {0,1,5,'.',','} plus
+// class representatives (exponents, hex, unicode digits, ...), judged by a reference number model and by
+// a differential oracle "bare letter == the explicit unit the documentation says it stands for".
 package c34
 
 import (
@@ -339,7 +343,7 @@ func multipliers(st *sizeType, l string) []*big.Int {
 // cases
 
 type Case struct {
-	Fam  string `json:"family"` // roundtrip | roundtrip-string | roundtrip-toml | suffix | fraction | conv | duration-roundtrip | duration-toml | duration-string
+	Fam  string `json:"family"` // roundtrip | roundtrip-string | roundtrip-toml | suffix | fraction | numspell | conv | duration-roundtrip | duration-toml | duration-string
 	Typ  string `json:"type"`
 	Val  string `json:"value,omitempty"` // decimal, for the value-driven families
 	Pre  string `json:"pre,omitempty"`
@@ -357,6 +361,18 @@ type verdict struct {
 	outcome string
 	obs     string
 	nontriv bool
+	lazy    func() string // observation built on demand (numspell family: millions of cases)
+}
+
+func mkv(sig, outcome, obs string, nontriv bool) verdict {
+	return verdict{sig: sig, outcome: outcome, obs: obs, nontriv: nontriv}
+}
+
+func (v verdict) observation() string {
+	if v.obs == "" && v.lazy != nil {
+		return v.lazy()
+	}
+	return v.obs
 }
 
 func magnitude(v *big.Int) string {
@@ -375,7 +391,7 @@ func evalRoundtrip(st *sizeType, cs Case) verdict {
 	case "roundtrip":
 		text, how, err = st.written(v)
 		if err != nil {
-			return verdict{vlib.JoinSig("roundtrip", st.name, "marshal-error"), "roundtrip:marshal-error", fmt.Sprintf("%s(%s).MarshalText: %v", st.name, v, err), true}
+			return mkv(vlib.JoinSig("roundtrip", st.name, "marshal-error"), "roundtrip:marshal-error", fmt.Sprintf("%s(%s).MarshalText: %v", st.name, v, err), true)
 		}
 		got, err = st.parse(text)
 	case "roundtrip-string":
@@ -397,7 +413,7 @@ func evalRoundtrip(st *sizeType, cs Case) verdict {
 		if stage == "encode" {
 			k = "encode-error"
 		}
-		return verdict{vlib.JoinSig(cs.Fam, st.name, k, mag), cs.Fam + ":" + k, o, true}
+		return mkv(vlib.JoinSig(cs.Fam, st.name, k, mag), cs.Fam+":"+k, o, true)
 	}
 	o += fmt.Sprintf(" -> parsed back as %s", got)
 	if got.Cmp(v) != 0 {
@@ -405,7 +421,7 @@ func evalRoundtrip(st *sizeType, cs Case) verdict {
 		if withinUlp(got, v) {
 			f += ",within-float-rounding"
 		}
-		return verdict{vlib.JoinSig(cs.Fam, st.name, "wrong-value", f), cs.Fam + ":wrong-value", o, true}
+		return mkv(vlib.JoinSig(cs.Fam, st.name, "wrong-value", f), cs.Fam+":wrong-value", o, true)
 	}
 	form := "plain"
 	if how == "MarshalText" || how == "String->Set" || strings.Contains(text, "\"") {
@@ -413,7 +429,7 @@ func evalRoundtrip(st *sizeType, cs Case) verdict {
 			form = "suffix-" + t[len(t)-1:]
 		}
 	}
-	return verdict{"", cs.Fam + ":identical/" + form, o, true}
+	return mkv("", cs.Fam+":identical/"+form, o, true)
 }
 
 func evalSuffix(st *sizeType, cs Case) verdict {
@@ -438,7 +454,7 @@ func evalSuffix(st *sizeType, cs Case) verdict {
 	for _, m := range multipliers(st, lower) {
 		p := new(big.Rat).Mul(num, new(big.Rat).SetInt(m))
 		if !p.IsInt() {
-			return verdict{"", cs.Fam + ":non-integer-product(not-judged)", "", false}
+			return mkv("", cs.Fam+":non-integer-product(not-judged)", "", false)
 		}
 		prods = append(prods, new(big.Int).Set(p.Num()))
 	}
@@ -466,20 +482,20 @@ func evalSuffix(st *sizeType, cs Case) verdict {
 		o += fmt.Sprintf(" rejected (%v); %s, fits=%v", err, want, allFit)
 		switch {
 		case !anyFits:
-			return verdict{"", "suffix:overflow-rejected/" + class, o, true}
+			return mkv("", "suffix:overflow-rejected/"+class, o, true)
 		case canonical && allFit && !isBig(prods[0]):
-			return verdict{vlib.JoinSig("suffix", st.name, "valid-rejected", "sfx="+class), "suffix:valid-rejected", o, true}
+			return mkv(vlib.JoinSig("suffix", st.name, "valid-rejected", "sfx="+class), "suffix:valid-rejected", o, true)
 		case canonical && allFit:
 			// the documentation itself concedes float64 precision loss of the humanize path at the top of the
 			// range; the statement does not promise acceptance there (the round-trip families do, for written forms)
-			return verdict{"", "suffix:valid>2^53-rejected(not-demanded)/" + class, o, true}
+			return mkv("", "suffix:valid>2^53-rejected(not-demanded)/"+class, o, true)
 		}
-		return verdict{"", "suffix:loose-form-rejected(not-demanded)", o, false}
+		return mkv("", "suffix:loose-form-rejected(not-demanded)", o, false)
 	}
 	o += fmt.Sprintf(" = %s; %s", got, want)
 	for _, p := range prods {
 		if st.fits(p) && got.Cmp(p) == 0 {
-			return verdict{"", "suffix:exact/" + class + "/" + form, o, true}
+			return mkv("", "suffix:exact/"+class+"/"+form, o, true)
 		}
 	}
 	if !anyFits {
@@ -502,16 +518,308 @@ func evalSuffix(st *sizeType, cs Case) verdict {
 		if p.Sign() < 0 {
 			dir = "neg"
 		}
-		return verdict{vlib.JoinSig("overflow", st.name, "accepted", dir+","+res), "overflow:accepted", o + " which does not fit the type", true}
+		return mkv(vlib.JoinSig("overflow", st.name, "accepted", dir+","+res), "overflow:accepted", o+" which does not fit the type", true)
 	}
 	// accepted, some documented product fits, but the value is none of them
 	for _, p := range prods {
 		if st.fits(p) && isBig(p) && withinUlp(got, p) {
 			// documented float64 precision loss above 2^53: the suffix still means the documented multiplier
-			return verdict{"", "suffix:inexact>2^53-within-float-rounding(not-judged)/" + class, o, true}
+			return mkv("", "suffix:inexact>2^53-within-float-rounding(not-judged)/"+class, o, true)
 		}
 	}
-	return verdict{vlib.JoinSig("suffix", st.name, "wrong-value", "sfx="+class+","+magnitude(prods[0])), "suffix:wrong-value", o, true}
+	return mkv(vlib.JoinSig("suffix", st.name, "wrong-value", "sfx="+class+","+magnitude(prods[0])), "suffix:wrong-value", o, true)
+}
+
+// ---------------------------------------------------------------------------------------------
+// number-spelling family: the numeric-prefix alphabet of size inputs
+
+// numAlphabet: every string over these bytes up to the tier's length bound is a number spelling.
+const numAlphabet = "015.,"
+
+// numClassReps: one representative of every other spelling class (two-digit and long integers, ordinary and
+// long fractions, well-formed and malformed grouping, leading zeros, exponents, hex, underscores, inner blank,
+// words, non-ASCII digits). Most are rejected by the real parser; the oracle never demands acceptance.
+var numClassReps = []string{"12", "1024", "007", "2.25", "10.75", "0.001", "1.50", "1,024", "1,000,000", "1,000.5",
+	"1e3", "1E3", "1e+3", "1.5e2", "0x10", "1_000", "1 5", "inf", "nan", "١", "１"}
+
+func numSpellings(maxLen int) []string {
+	seen := map[string]bool{}
+	var out []string
+	add := func(s string) {
+		if !seen[s] {
+			seen[s] = true
+			out = append(out, s)
+		}
+	}
+	level := []string{""}
+	add("")
+	for l := 1; l <= maxLen; l++ {
+		if l == 3 {
+			for _, s := range numClassReps {
+				add(s)
+			}
+		}
+		var next []string
+		for _, p := range level {
+			for _, ch := range numAlphabet {
+				next = append(next, p+string(ch))
+				add(p + string(ch))
+			}
+		}
+		level = next
+	}
+	return out
+}
+
+func asciiDigits(s string) bool {
+	for i := 0; i < len(s); i++ {
+		if s[i] < '0' || s[i] > '9' {
+			return false
+		}
+	}
+	return true
+}
+
+// refNum is the reference reading of a number spelling, independent of the code under test: ASCII decimal
+// digits with at most one '.', at least one digit ("1.", ".5" included), the integer part optionally written
+// with well-formed thousands groups (1,024 / 1,000,000). Every other spelling (stray commas, exponents, ...)
+// has no reference value: the statement says nothing about it and only the differential oracle applies.
+func refNum(d string) (*big.Rat, bool) {
+	ip, fp, _ := strings.Cut(d, ".")
+	if !asciiDigits(fp) { // also rejects a second '.'
+		return nil, false
+	}
+	if strings.Contains(ip, ",") {
+		gs := strings.Split(ip, ",")
+		if len(gs[0]) < 1 || len(gs[0]) > 3 {
+			return nil, false
+		}
+		for i, g := range gs {
+			if !asciiDigits(g) || (i > 0 && len(g) != 3) {
+				return nil, false
+			}
+		}
+		ip = strings.Join(gs, "")
+	}
+	if !asciiDigits(ip) || len(ip)+len(fp) == 0 {
+		return nil, false
+	}
+	r := new(big.Rat)
+	if ip != "" {
+		r.SetInt(bi(ip))
+	}
+	if fp != "" {
+		r.Add(r, new(big.Rat).SetFrac(bi(fp), pow(10, len(fp))))
+	}
+	return r, true
+}
+
+// numShape / gapClass: the discriminating features of a number spelling for class signatures.
+func numShape(d string) string {
+	if d == "" {
+		return "empty"
+	}
+	for i := 0; i < len(d); i++ {
+		if !(d[i] >= '0' && d[i] <= '9') && d[i] != '.' && d[i] != ',' {
+			return "other"
+		}
+	}
+	sep := func(b byte) bool { return b == '.' || b == ',' }
+	switch {
+	case sep(d[len(d)-1]):
+		return "ends-in-separator"
+	case sep(d[0]):
+		return "starts-with-separator"
+	case strings.Contains(d, ","):
+		return "grouped"
+	case strings.Contains(d, "."):
+		return "fraction"
+	}
+	return "integer"
+}
+
+func gapClass(g string) string {
+	if g == "" {
+		return "none"
+	}
+	if strings.Trim(g, " \t") == "" {
+		return "blank"
+	}
+	return "unicode-space"
+}
+
+// twinInfo: the explicit unit a bare letter stands for according to the documentation (1.x types: bare k/m/g
+// = kib/mib/gib; 2.x types: every bare letter = the SI unit Xb), and what the REAL parser makes of
+// <sign><number> + " " + that explicit unit. The explicit-unit path is humanize's own vocabulary and involves no
+// bare-suffix detection, so it also tells whether the number spelling as such is accepted by the real parser.
+type twinInfo struct {
+	sfx     string // "" = no twin (not a bare letter, or bare t/p/e on the 1.x types where the documentation is silent)
+	unit    string // "iec" | "si": what the bare letter must mean
+	val     *big.Int
+	err     error
+	alt     *big.Int // value of the OTHER explicit unit, nil if rejected (names what a deviating result was read as)
+	altUnit string
+	// reference model, independent of the code under test: refNum(spelling) with the sign applied, times every
+	// documented multiplier of (type, suffix)
+	numOK   bool
+	prods   []*big.Rat
+	anyFits bool
+}
+
+func twinFor(st *sizeType, sign, dig, lower string) twinInfo {
+	var t twinInfo
+	if num, ok := refNum(dig); ok {
+		t.numOK = true
+		if sign == "-" {
+			num = new(big.Rat).Neg(num)
+		}
+		for _, m := range multipliers(st, lower) {
+			p := new(big.Rat).Mul(num, new(big.Rat).SetInt(m))
+			t.prods = append(t.prods, p)
+			if ratFits(st, p) {
+				t.anyFits = true
+			}
+		}
+	}
+	other := ""
+	switch class := sfxClass(lower); {
+	case st.v1 && class == "bare-kmg":
+		t.sfx, t.unit, other, t.altUnit = lower+"ib", "iec", lower+"b", "si"
+	case !st.v1 && (class == "bare-kmg" || class == "bare-tpe"):
+		t.sfx, t.unit, other, t.altUnit = lower+"b", "si", lower+"ib", "iec"
+	default:
+		return t
+	}
+	t.val, t.err = st.parse(sign + dig + " " + t.sfx)
+	if v, err := st.parse(sign + dig + " " + other); err == nil {
+		t.alt = v
+	}
+	return t
+}
+
+func ratFits(st *sizeType, p *big.Rat) bool {
+	lo, hi := zero, maxU64
+	if st.signed {
+		lo, hi = minI64, maxI64
+	}
+	return p.Cmp(new(big.Rat).SetInt(lo)) >= 0 && p.Cmp(new(big.Rat).SetInt(hi)) <= 0
+}
+
+func evalNumspell(st *sizeType, cs Case, tw *twinInfo) verdict {
+	text := cs.text()
+	lower := strings.ToLower(cs.Sfx)
+	class := sfxClass(lower)
+	if tw == nil {
+		t := twinFor(st, cs.Sign, cs.Dig, lower)
+		tw = &t
+	}
+	shape := "num=" + numShape(cs.Dig) + ",gap=" + gapClass(cs.Mid)
+	if gapClass(cs.Mid) == "unicode-space" {
+		shape = "num=any,gap=unicode-space" // the number's shape does not discriminate behind a non-ASCII blank
+	}
+	got, err := st.parse(text)
+
+	// (a) differential oracle: a bare letter means exactly the explicit unit the documentation names.
+	twinNote := ""
+	if tw.sfx != "" {
+		twinNote = "/twin-rejected"
+		if tw.err == nil {
+			twinNote = "/bare=explicit-" + tw.unit
+		}
+	}
+	if err == nil && tw.sfx != "" && tw.err == nil && got.Cmp(tw.val) != 0 {
+		if isBig(tw.val) && withinUlp(got, tw.val) {
+			return verdict{outcome: "numspell:bare~explicit>2^53-within-float-rounding(not-judged)/" + class, nontriv: true}
+		}
+		as := "other"
+		if tw.alt != nil && got.Cmp(tw.alt) == 0 {
+			as = tw.altUnit
+		}
+		twv, alt := tw.val, tw.alt
+		return verdict{
+			sig:     vlib.JoinSig("numspell", st.name, "bare-differs-from-explicit-"+tw.unit, "read-as="+as+","+shape),
+			outcome: "numspell:bare-differs-from-explicit", nontriv: true,
+			lazy: func() string {
+				o := fmt.Sprintf("%s.UnmarshalText(%q) = %s but the explicit %s spelling %q = %s", st.name, text, got, tw.unit,
+					cs.Sign+cs.Dig+" "+tw.sfx, twv)
+				if alt != nil {
+					o += fmt.Sprintf(" (%q = %s)", cs.Sign+cs.Dig+" "+lower+map[string]string{"si": "b", "iec": "ib"}[tw.altUnit], alt)
+				}
+				return o
+			}}
+	}
+
+	// (b) reference number model x documented multiplier (precomputed per (type, sign, spelling, suffix) in tw)
+	if !tw.numOK {
+		if err != nil {
+			return verdict{outcome: "numspell:unmodelled-number-rejected", nontriv: false}
+		}
+		return verdict{outcome: "numspell:unmodelled-number-accepted(value-not-judged)/" + class + twinNote, nontriv: tw.sfx != "" && tw.err == nil,
+			lazy: func() string { return fmt.Sprintf("%s.UnmarshalText(%q) = %s", st.name, text, got) }}
+	}
+	prods, anyFits := tw.prods, tw.anyFits
+	want := func() string {
+		w := "exact product " + prods[0].RatString()
+		if len(prods) > 1 {
+			w += " or " + prods[1].RatString()
+		}
+		return w
+	}
+	if err != nil {
+		if !anyFits {
+			return verdict{outcome: "numspell:overflow-rejected/" + class, nontriv: true}
+		}
+		// acceptance of a spelling is never demanded in this family (the canonical spellings are family 2)
+		return verdict{outcome: "numspell:rejected(not-demanded)" + twinNote, nontriv: false}
+	}
+	obs := func() string { return fmt.Sprintf("%s.UnmarshalText(%q) = %s; %s", st.name, text, got, want()) }
+	gr := new(big.Rat).SetInt(got)
+	one := big.NewRat(1, 1)
+	for _, p := range prods {
+		if !ratFits(st, p) {
+			continue
+		}
+		if p.IsInt() {
+			if gr.Cmp(p) == 0 {
+				return verdict{outcome: "numspell:exact/" + class + twinNote, nontriv: true, lazy: obs}
+			}
+			continue
+		}
+		// a fractional byte count: the statement does not say how it is rounded; floor and ceiling are accepted
+		if d := new(big.Rat).Sub(gr, p); d.Abs(d).Cmp(one) < 0 {
+			return verdict{outcome: "numspell:fractional-product-rounded/" + class + twinNote, nontriv: true, lazy: obs}
+		}
+	}
+	p0 := prods[0]
+	if !anyFits {
+		dir, bound := "pos", maxU64
+		if st.signed {
+			bound = maxI64
+		}
+		if p0.Sign() < 0 {
+			dir, bound = "neg", zero
+			if st.signed {
+				bound = minI64
+			}
+		}
+		res := "result=other(wrapped)"
+		if got.Cmp(bound) == 0 {
+			res = "result=bound(clamped)"
+		}
+		return verdict{sig: vlib.JoinSig("overflow", st.name, "accepted", dir+","+res), outcome: "overflow:accepted", nontriv: true,
+			lazy: func() string { return obs() + " which does not fit the type" }}
+	}
+	mag := "<=2^53"
+	for _, p := range prods {
+		if a := new(big.Rat).Abs(p); ratFits(st, p) && a.Cmp(new(big.Rat).SetInt(two53)) > 0 {
+			mag = ">2^53"
+			tol := new(big.Rat).Quo(a, new(big.Rat).SetInt(pow(2, int(ulpShift))))
+			if d := new(big.Rat).Sub(gr, p); d.Abs(d).Cmp(tol) <= 0 {
+				return verdict{outcome: "numspell:inexact>2^53-within-float-rounding(not-judged)/" + class, nontriv: true, lazy: obs}
+			}
+		}
+	}
+	return verdict{sig: vlib.JoinSig("numspell", st.name, "wrong-value", "sfx="+class+","+mag+","+shape), outcome: "numspell:wrong-value", nontriv: true, lazy: obs}
 }
 
 func evalConv(st *sizeType, cs Case) verdict {
@@ -543,7 +851,7 @@ func evalConv(st *sizeType, cs Case) verdict {
 		}
 		oc += fmt.Sprintf("%s=%v,", n, r.err == nil)
 	}
-	return verdict{sig, oc, strings.Join(o, "; "), true}
+	return mkv(sig, oc, strings.Join(o, "; "), true)
 }
 
 // ---- Duration ----
@@ -582,11 +890,11 @@ func evalDuration(cs Case) verdict {
 		}
 		o := fmt.Sprintf("Duration %s written as %q", v, text)
 		if err != nil {
-			return verdict{vlib.JoinSig(cs.Fam, "Duration", "rejected"), cs.Fam + ":rejected", o + " -> rejected: " + err.Error(), true}
+			return mkv(vlib.JoinSig(cs.Fam, "Duration", "rejected"), cs.Fam+":rejected", o+" -> rejected: "+err.Error(), true)
 		}
 		o += fmt.Sprintf(" -> parsed back as %d", int64(got))
 		if int64(got) != v.Int64() {
-			return verdict{vlib.JoinSig(cs.Fam, "Duration", "wrong-value"), cs.Fam + ":wrong-value", o, true}
+			return mkv(vlib.JoinSig(cs.Fam, "Duration", "wrong-value"), cs.Fam+":wrong-value", o, true)
 		}
 		shape := "ns-only"
 		switch a := absBig(v); {
@@ -597,7 +905,7 @@ func evalDuration(cs Case) verdict {
 		case a.Cmp(big.NewInt(1e9)) >= 0:
 			shape = "seconds"
 		}
-		return verdict{"", cs.Fam + ":identical/" + shape, o, true}
+		return mkv("", cs.Fam+":identical/"+shape, o, true)
 	case "duration-string":
 		text := cs.text()
 		p := new(big.Int).Mul(bi(cs.Dig), big.NewInt(durUnits[cs.Sfx]))
@@ -610,23 +918,23 @@ func evalDuration(cs Case) verdict {
 		o := fmt.Sprintf("Duration.UnmarshalText(%q)", text)
 		if err != nil {
 			if !fits {
-				return verdict{"", "duration-string:overflow-rejected", o + " rejected", true}
+				return mkv("", "duration-string:overflow-rejected", o+" rejected", true)
 			}
-			return verdict{"", "duration-string:in-range-rejected(not-demanded)", o + " rejected: " + err.Error(), true}
+			return mkv("", "duration-string:in-range-rejected(not-demanded)", o+" rejected: "+err.Error(), true)
 		}
 		o += fmt.Sprintf(" = %d; exact product %s", int64(d), p)
 		if !fits {
-			return verdict{vlib.JoinSig("overflow", "Duration", "accepted"), "overflow:accepted", o + " which does not fit int64", true}
+			return mkv(vlib.JoinSig("overflow", "Duration", "accepted"), "overflow:accepted", o+" which does not fit int64", true)
 		}
 		if big.NewInt(int64(d)).Cmp(p) == 0 {
-			return verdict{"", "duration-string:exact", o, true}
+			return mkv("", "duration-string:exact", o, true)
 		}
-		return verdict{"", "duration-string:inexact(not-judged)", o, true}
+		return mkv("", "duration-string:inexact(not-judged)", o, true)
 	}
 	panic("unknown duration family " + cs.Fam)
 }
 
-func evalCase(types map[string]*sizeType, cs Case) (v verdict) {
+func evalCase(types map[string]*sizeType, cs Case, tw ...*twinInfo) (v verdict) {
 	p, desc := vlib.Guard(func() {
 		if strings.HasPrefix(cs.Fam, "duration") {
 			v = evalDuration(cs)
@@ -641,6 +949,12 @@ func evalCase(types map[string]*sizeType, cs Case) (v verdict) {
 			v = evalRoundtrip(st, cs)
 		case "suffix", "fraction":
 			v = evalSuffix(st, cs)
+		case "numspell":
+			if len(tw) > 0 {
+				v = evalNumspell(st, cs, tw[0])
+			} else {
+				v = evalNumspell(st, cs, nil)
+			}
 		case "conv":
 			v = evalConv(st, cs)
 		default:
@@ -652,7 +966,10 @@ func evalCase(types map[string]*sizeType, cs Case) (v verdict) {
 		if i := strings.LastIndex(desc, "@ "); i >= 0 {
 			fr = desc[i+2:]
 		}
-		return verdict{vlib.JoinSig(cs.Fam, cs.Typ, "panic", fr), cs.Fam + ":panic", desc, true}
+		return verdict{sig: vlib.JoinSig(cs.Fam, cs.Typ, "panic", fr), outcome: cs.Fam + ":panic", obs: desc, nontriv: true}
+	}
+	if v.sig != "" {
+		v.obs = v.observation()
 	}
 	return v
 }
@@ -669,13 +986,17 @@ func TestCheck(t *testing.T) {
 		Rule: "value set U = {0,1, 2^k-1,2^k,2^k+1 (k=0..64), 1000^j,1024^j (+-1, j=1..6), floor(L/m)+{-1,0,1,2} for L in {MaxUint64,MaxInt64,2^63,2^53} and every multiplier m, a few ordinary config values} (~390 values) and its signed closure. " +
 			"Families: (1) every value of the type's range in U through the written form -> UnmarshalText for SizeV1/SSizeV1 (MarshalText, String->Set), SizeV2/SSizeV2/Size/SSize (raw decimal integer, the form BurntSushi/toml writes) and Duration (MarshalText), and through a real BurntSushi toml Encode->Decode of a one-field struct: must be identical; " +
 			"(2) every string <pre><sign><digits><mid><suffix><post> with digits in U, sign in {'',-} (thorough: also +), suffix over EVERY case variant of {'',b,X,Xb,Xib,Xi | X in k,m,g,t,p,e} (111 spellings), mid in {'',' '} (thorough: pre,mid,post in {'',' '}) for SizeV1,SSizeV1,SizeV2,SSizeV2 (aliases Size/SSize: digits<=2^32): accepted value must equal digits x documented multiplier exactly (math/big), an input whose exact product does not fit the type must be rejected, canonical spellings of in-range values <=2^53 must be accepted; " +
-			"(3) fractional digit strings {1.5,0.5,2.25,1,024,...} x all suffixes; (4) ToInt/ToInt64/ToUint64 on every value; (5) Duration strings sign x digits x {ns,us,µs,ms,s,m,h}: overflow must be rejected. " +
-			"Cases are distinct by construction; non-trivial = every judged case (not-judged loose spellings that are rejected are excluded)",
+			"(3) fractional digit strings {1.5,0.5,2.25,1,024,...} x all suffixes; (4) ToInt/ToInt64/ToUint64 on every value; (5) Duration strings sign x digits x {ns,us,µs,ms,s,m,h}: overflow must be rejected; " +
+			"(6) numeric-prefix alphabet: the full product <pre><sign><number spelling><gap><suffix><post> for all six size types with pre,post in {'',' '} (thorough: also tab), sign in {'',+,-}, gap in {'',' '} (thorough: also tab, two blanks, U+00A0), suffix over all 111 case variants, and number spelling = EVERY string of length 0..3 (thorough: 0..4) over the bytes {0,1,5,'.',','} (156 / 781 spellings: integers, leading zeros, .5, 1., 1.5, ',5', '1,', '1..', ...) plus 21 class representatives (12, 1024, 007, 2.25, 0.001, 1,024, 1,000,000, 1,000.5, 1e3, 1E3, 1e+3, 1.5e2, 0x10, 1_000, '1 5', inf, nan, non-ASCII digits): " +
+			"(6a) differential oracle - wherever the real parser accepts both <text with a bare letter> and <sign><spelling>' '<the explicit unit the documentation gives that letter> (kib/mib/gib for bare k/m/g on SizeV1/SSizeV1, Xb for every bare letter on the 2.x types) the two values must be identical; (6b) when the spelling has a reference reading (ASCII digits, at most one '.', optional well-formed thousands groups) an accepted value must equal reference number x documented multiplier (math/big; a fractional product may be rounded either way) and a product that does not fit the type must be rejected. " +
+			"Cases are distinct by construction; non-trivial = every judged case (not-judged loose spellings that are rejected are excluded; in family 6 a case is non-trivial when the real parser accepted the text, so a value was compared, or rejected an overflowing product)",
 		Assumptions: []string{
 			"documented multipliers: 1.x types (SizeV1/SSizeV1) bare k/m/g = 1024^n; 2.x types and the Size/SSize aliases bare letters = 1000^n; Xb = 1000^n, Xib/Xi = 1024^n; bare t/p/e on the 1.x types: the documentation is silent, 1000^n and 1024^n are both accepted",
 			"the toml.go documentation concedes float64 precision loss of the humanize path above 2^53: for suffixed INPUT strings whose exact product exceeds 2^53 an accepted value within float64 rounding of the product, or a rejection of an in-range value, is counted (outcome histogram) but not judged; the round-trip and overflow clauses are judged without that tolerance",
 			"acceptance of loose spellings (leading/trailing blanks, '+', mixed case, '-0' for unsigned) is not demanded, only that an accepted value is exact",
 			"'written out by the configuration layer' for the 2.x types = the raw decimal integer, because SizeV2/SSizeV2 deliberately have no MarshalText and BurntSushi/toml then emits the integer kind (documented in toml.go)",
+			"family 6: acceptance of a number spelling is never demanded (whether '.5', '1.', ',5', '1e3' are numbers is the parser's business: it is observed on the explicit-unit spelling, which involves no bare-suffix detection); demanded is only that an ACCEPTED bare k/m/g (1.x types) means the same as the explicit kib/mib/gib and an accepted bare letter (2.x types) the same as the explicit Xb, whatever the number in front is spelled like, and that accepted values of spellings with a reference reading are number x documented multiplier",
+			"family 6: spellings without a reference reading (stray or misplaced commas, exponents, hex, ...) are judged by the differential oracle only; the rounding direction of a fractional byte count (e.g. '.3k' = 307.2) is not part of the statement: floor and ceiling are both accepted",
 			"int is 64 bit",
 		},
 		QuickBudgetS: 60, ThoroughBudgetS: 800,
@@ -702,7 +1023,7 @@ func TestCheck(t *testing.T) {
 				if v.sig != "" {
 					c.Violation(v.sig, v.obs, cs)
 				} else if v.nontriv && (idx+blk)%499 == 0 && c.WantSample() {
-					c.Sample(map[string]any{"case": cs, "observed": v.obs})
+					c.Sample(map[string]any{"case": cs, "observed": v.observation()})
 				}
 			}
 			small := pow(2, 32)
@@ -747,6 +1068,52 @@ func TestCheck(t *testing.T) {
 								}
 								if base == "" {
 									break
+								}
+							}
+						}
+					}
+				}
+			}
+			// (6) number spellings: <pre><sign><spelling><gap><suffix><post>, full product
+			spell, outer, gaps := numSpellings(3), []string{"", " "}, []string{"", " "}
+			if c.Thorough() {
+				spell, outer, gaps = numSpellings(4), []string{"", " ", "\t"}, []string{"", " ", "\t", "  ", "\u00a0"}
+			}
+			for _, dg := range spell {
+				if c.Expired() {
+					c.Cap(fmt.Sprintf("budget expired in the number-spelling family at spelling %q", dg))
+					return
+				}
+				for _, st := range sts {
+					for _, sg := range []string{"", "-", "+"} {
+						for _, base := range baseSuffixes {
+							// one shard unit = (spelling, type, sign, base suffix); the explicit-unit twin is parsed once per unit
+							blk++
+							if !c.Mine(blk) {
+								continue
+							}
+							tw := twinFor(st, sg, dg, base)
+							for _, sfx := range caseVariants(base) {
+								for _, pre := range outer {
+									for _, gap := range gaps {
+										if base == "" && gap != "" {
+											continue // without a suffix the gap is the trailing blank: same text as post
+										}
+										for _, post := range outer {
+											cs := Case{Fam: "numspell", Typ: st.name, Pre: pre, Sign: sg, Dig: dg, Mid: gap, Sfx: sfx, Post: post}
+											v := evalCase(types, cs, &tw)
+											c.Eval(1)
+											if v.nontriv {
+												c.NontrivialN(1)
+											}
+											c.Outcome(v.outcome)
+											if v.sig != "" {
+												c.Violation(v.sig, v.observation(), cs)
+											} else if v.nontriv && v.lazy != nil && blk%9973 == 0 && sfx == base && pre == "" && post == "" && c.WantSample() {
+												c.Sample(map[string]any{"case": cs, "observed": v.observation()})
+											}
+										}
+									}
 								}
 							}
 						}
